@@ -22,6 +22,10 @@ type Chooser struct {
 	lazyFrom int
 }
 
+// drawDebug, when set (VERIF_DRAWLOG=<file>), is told about every draw: forensics for runs
+// whose digests differ from one execution to the next
+var drawDebug func(pos, n, v int)
+
 func NewChooser(seed uint64) *Chooser {
 	c := &Chooser{rng: rand.New(rand.NewPCG(seed, 0x9e3779b97f4a7c15))}
 	if c.rng.IntN(10) == 0 {
@@ -55,6 +59,9 @@ func (c *Chooser) Intn(n int) int {
 	}
 	c.pos++
 	c.Rec = append(c.Rec, v)
+	if drawDebug != nil {
+		drawDebug(c.pos, n, v)
+	}
 	if c.Log != nil {
 		c.Log(v)
 	}
